@@ -62,8 +62,7 @@ def run_case(case):
         obs.nt = ("invalid", I, T)
         return obs
 
-    sched = simkit.Sched(choices=case.get("choices", []), preempt=case.get("preempt"), horizon=100000.0, repo=REPO, max_steps=30_000_000 if case.get("opcodes") else 3_000_000,
-                         opcodes=bool(case.get("opcodes")))
+    sched = simkit.Sched(choices=case.get("choices", []), preempt=case.get("preempt"), horizon=100000.0, repo=REPO, max_steps=3_000_000)
     net = simkit.SimNet(sched)
     lat = case.get("pong", [])
     silent_from = case.get("silent_from")
@@ -262,10 +261,6 @@ def jobs(tier, seed):
     for fi in range(len(FIXED)):
         for sh in range(of):
             out.append({"name": f"preempt-{fi}-{sh}", "kind": "preempt", "fixed": fi, "shard": sh, "of": of, "stride": 3 if tier == "quick" else 1})
-    if tier != "quick":
-        # bytecode-level sweep of the first scenario: a switch between any two instructions inside websocket/
-        for sh in range(16):
-            out.append({"name": f"preempt-op-{sh}", "kind": "preempt", "fixed": 0, "shard": sh, "of": 16, "stride": 1, "opcodes": True})
     return out
 
 
@@ -274,14 +269,12 @@ def run_job(job, coll):
         base = FIXED[job["fixed"]]
         # the scenario is cut short (horizon 8 intervals) so that a sweep over all its line steps stays cheap
         base = dict(base, short=True)
-        if job.get("opcodes"):
-            base["opcodes"] = True
         n_steps = _count_steps(base)
         pts = list(range(1, n_steps + 1, job["stride"]))
         for idx, p in enumerate(pts):
             if idx % job["of"] == job["shard"]:
                 coll.check(dict(base, preempt={str(p): 1}), run_case)
-        coll.exhaustive[f"single preemption points of fixed scenario {job['fixed']} ({'bytecode' if job.get('opcodes') else 'line'} level, stride {job['stride']})"] = job["stride"] == 1
+        coll.exhaustive[f"single preemption points of fixed scenario {job['fixed']} (stride {job['stride']})"] = job["stride"] == 1
         return
     if job["kind"] == "grid":
         for c in grid_cases():
